@@ -16,6 +16,7 @@ import (
 	"go/printer"
 	"go/token"
 	"go/types"
+	"math/big"
 	"sort"
 	"strings"
 )
@@ -40,6 +41,18 @@ type xUnit struct {
 	// oracles (optional): expressions (by printed text) replaced by a parameter of the given Gallina type: values the
 	// environment decides (clock, I/O outcome) or that are outside the subset (floating point). At most one use each.
 	Oracles map[string]xOracle
+	// Ignore: statements (by printed text) that are left out: lock handling (`r.RLock()`, `defer r.RUnlock()`): the
+	// translation is of the sequential body; that it runs atomically is the model's assumption.
+	Ignore []string
+	// Methods: pure methods without arguments of values of the subset (e.String()) that the code calls: each becomes a
+	// function parameter of the given Gallina type, applied to the translated receiver
+	Methods map[string]xOracle
+	// Fresh: variables of the function that a statement slice receives as parameters and appends to; the rule that
+	// makes append act on a value (only ever assigned zero / make / literal / append to itself) is checked over the
+	// whole function for them
+	Fresh []string
+	// Errs: calls (by printed callee) that yield a non-nil error whatever their arguments (errors.New, fmt.Errorf)
+	Errs map[string]bool
 	// state mode (optional, xlate_state.go): the receiver is abstracted to a state value threaded through the code
 	State *xStateSpec
 	// Fuel: the unit takes a fuel argument (nat) and hands it to the fuel units it calls. Units of one Group call each
@@ -96,16 +109,24 @@ type xl struct {
 	namedRes   []*types.Var // named results (variables; a bare return yields them)
 	inLoop     bool         // inside the `for { }` of a fuel unit
 	loopState  string
+	freshDone  map[*types.Var]bool
+	fnBody     []ast.Stmt              // the whole function body (freshness of slice parameters)
+	inLambda   bool                    // inside the comparator of sort.Slice: a plain boolean function
+	sortVar    types.Object            // the slice being sorted
+	sortIdx    map[types.Object]string // the comparator's index parameters -> the names of the two elements
 }
 
 // identifiers the generated text uses itself; a Go variable of such a name gets a trailing underscore
 var xReserved = strings.Fields(`ctl Next Return Panic bindc go_call wrapU wrapS go_len go_nth go_in_range go_slice
- go_slice_ok go_bytes_eqb go_be_u16 go_be_u32 go_be_u64 go_emit_u8 go_emit_u16 go_emit_u32 go_emit_u64 go_emit_bytes go_range go_count go_map_get go_map_set go_make go_iter rd fuel inl inr go_atomic_cas32 go_atomic_add32
+ go_slice_ok go_bytes_eqb go_be_u16 go_be_u32 go_be_u64 go_emit_u8 go_emit_u16 go_emit_u32 go_emit_u64 go_emit_bytes go_range go_count go_map_get go_map_set go_make go_iter rd fuel inl inr go_atomic_cas32 go_atomic_add32 go_search go_search_ok Some None go_f32_to_f64 go_bytes_ltb go_sort_by go_count_down a__ b__
  andb orb negb implb true false tt nil cons list unit bool Z N nat fst snd pair Bool eqb
  fun let in if then else match with end as return forall exists fix cofix Type Prop Set struct where at using for IF
  Definition Fixpoint Record Lemma Theorem out st`)
 
 func (x *xl) fail(n ast.Node, f string, a ...interface{}) {
+	if n == nil {
+		panic(xErr{token.Position{}, fmt.Sprintf(f, a...)})
+	}
 	panic(xErr{x.fset.Position(n.Pos()), fmt.Sprintf(f, a...)})
 }
 
@@ -174,8 +195,25 @@ func (x *xl) typeOf(e ast.Expr) types.Type {
 }
 
 // coqType: the Gallina type that represents values of the Go type t
+// xIsFloat: float32 (32) or float64 (64): represented by their IEEE bit patterns; only moved around, converted
+// to / from bits, widened (float64(f32)) and set to 0 - no arithmetic, no comparison
+func xIsFloat(t types.Type) int {
+	if b, ok := t.Underlying().(*types.Basic); ok {
+		switch b.Kind() {
+		case types.Float32:
+			return 32
+		case types.Float64:
+			return 64
+		}
+	}
+	return 0
+}
+
 func (x *xl) coqType(n ast.Node, t types.Type) string {
 	if _, _, ok := xIntType(t); ok {
+		return "Z"
+	}
+	if xIsFloat(t) != 0 {
 		return "Z"
 	}
 	switch {
@@ -216,8 +254,25 @@ func (x *xl) record(n ast.Node, nm *types.Named) string {
 	return name
 }
 
+// translatable: does the subset have values of type t?
+func (x *xl) translatable(t types.Type) (ok bool) {
+	defer func() {
+		if r := recover(); r != nil {
+			if _, isX := r.(xErr); !isX {
+				panic(r)
+			}
+			ok = false
+		}
+	}()
+	x.coqType(nil, t)
+	return true
+}
+
 func (x *xl) zero(n ast.Node, t types.Type) string {
 	if _, _, ok := xIntType(t); ok {
+		return "0"
+	}
+	if xIsFloat(t) != 0 {
 		return "0"
 	}
 	switch {
@@ -267,6 +322,17 @@ func (x *xl) field(e ast.Expr) *types.Var {
 	}
 	if sel, ok := x.info.Selections[se]; ok && sel.Kind() == types.FieldVal && len(sel.Index()) == 1 {
 		return sel.Obj().(*types.Var)
+	}
+	return nil
+}
+
+// atomicField: c is atomic.AddInt32/AddInt64/AddUint32/AddUint64(&recv.f, d): the field
+func (x *xl) atomicField(c *ast.CallExpr) *types.Var {
+	switch x.src(c.Fun) {
+	case "atomic.AddInt32", "atomic.AddInt64", "atomic.AddUint32", "atomic.AddUint64":
+		if u, ok := c.Args[0].(*ast.UnaryExpr); ok && u.Op == token.AND {
+			return x.field(u.X)
+		}
 	}
 	return nil
 }
@@ -423,6 +489,12 @@ func (x *xl) expr(e ast.Expr, g *xGuards) string {
 		x.fail(e, "receiver field %s was not found by the pre-scan", x.src(e))
 	}
 	if tv, ok := x.info.Types[e]; ok && tv.Value != nil { // constant expression: value as the compiler sees it
+		if tv.Type != nil && xIsFloat(tv.Type) != 0 { // a float constant: only +0 (bit pattern 0)
+			if constant.Sign(tv.Value) == 0 && !strings.HasPrefix(tv.Value.ExactString(), "-") {
+				return "0"
+			}
+			x.fail(e, "float constant %s: only 0 is in the subset", x.src(e))
+		}
 		switch tv.Value.Kind() {
 		case constant.Int:
 			if n := x.namedConst(e, tv.Value); n != "" {
@@ -438,6 +510,21 @@ func (x *xl) expr(e ast.Expr, g *xGuards) string {
 	}
 	if f, ok := x.stField(e); ok {
 		return "(" + f.Get + " rd)"
+	}
+	if x.sortVar != nil {
+		if ie, ok := e.(*ast.IndexExpr); ok { // v[i] / v[j] inside the comparator of sort.Slice(v, ..): the two elements
+			if vi, ok := ie.X.(*ast.Ident); ok && x.info.ObjectOf(vi) == x.sortVar {
+				if ii, ok := ie.Index.(*ast.Ident); ok {
+					if n, ok := x.sortIdx[x.info.ObjectOf(ii)]; ok {
+						return n
+					}
+				}
+				x.fail(e, "inside the comparator the sorted slice may only be used as v[i] and v[j]")
+			}
+		}
+		if id, ok := e.(*ast.Ident); ok && x.info.ObjectOf(id) == x.sortVar {
+			x.fail(e, "inside the comparator the sorted slice may only be used as v[i] and v[j]")
+		}
 	}
 	switch e := e.(type) {
 	case *ast.ParenExpr:
@@ -577,6 +664,14 @@ func (x *xl) compare(e *ast.BinaryExpr, t types.Type, a, b string) string {
 		r = "(Bool.eqb " + a + " " + b + ")"
 	case xIsBytes(t) && xIsString(t) && (e.Op == token.EQL || e.Op == token.NEQ):
 		r = "(go_bytes_eqb " + a + " " + b + ")"
+	case xIsString(t) && e.Op == token.LSS: // byte-wise lexicographic order
+		return "(go_bytes_ltb " + a + " " + b + ")"
+	case xIsString(t) && e.Op == token.GTR:
+		return "(go_bytes_ltb " + b + " " + a + ")"
+	case xIsString(t) && e.Op == token.LEQ:
+		return "(negb (go_bytes_ltb " + b + " " + a + "))"
+	case xIsString(t) && e.Op == token.GEQ:
+		return "(negb (go_bytes_ltb " + a + " " + b + "))"
 	case xIsError(t) && (e.Op == token.EQL || e.Op == token.NEQ): // comparison with nil only
 		if !x.info.Types[e.Y].IsNil() && !x.info.Types[e.X].IsNil() {
 			x.fail(e, "errors can only be compared with nil")
@@ -634,6 +729,31 @@ func (x *xl) arith(e *ast.BinaryExpr, a, b string, g *xGuards) string {
 }
 
 func (x *xl) call(e *ast.CallExpr, g *xGuards) string {
+	if x.unit.Errs[x.src(e.Fun)] { // an error value that is not nil; its text is not modelled
+		return "true"
+	}
+	if se, ok := e.Fun.(*ast.SelectorExpr); ok && len(e.Args) == 0 {
+		if m, ok := x.unit.Methods[se.Sel.Name]; ok { // a declared pure method: a function parameter
+			if _, isFn := x.info.ObjectOf(se.Sel).(*types.Func); isFn {
+				return "(" + m.Name + " " + x.expr(se.X, g) + ")"
+			}
+		}
+	}
+	if x.src(e.Fun) == "sort.Search" && len(e.Args) == 2 { // sort.Search(n, func(i int) bool { return P })
+		if fl, ok := e.Args[1].(*ast.FuncLit); ok && len(fl.Body.List) == 1 && len(fl.Type.Params.List) == 1 && len(fl.Type.Params.List[0].Names) == 1 {
+			if rs, ok := fl.Body.List[0].(*ast.ReturnStmt); ok && len(rs.Results) == 1 {
+				n := x.expr(e.Args[0], g)
+				iv := x.declare(x.info.ObjectOf(fl.Type.Params.List[0].Names[0]))
+				var gi xGuards
+				p := x.expr(rs.Results[0], &gi)
+				// the predicate is evaluated by the binary search only; a failing run-time check inside it is a panic of the search
+				f := "(fun " + iv + " : Z => if " + xConj(gi) + " then Some " + p + " else None)"
+				*g = append(*g, "(go_search_ok "+n+" "+f+")")
+				return "(go_search " + n + " " + f + ")"
+			}
+		}
+		x.fail(e, "sort.Search is in the subset only with a function literal of the form func(i int) bool { return P }")
+	}
 	if sp := x.stSpec(); sp != nil {
 		f := x.src(e.Fun)
 		if sp.Errs[f] { // an error value that is not nil; its text is not modelled
@@ -647,12 +767,24 @@ func (x *xl) call(e *ast.CallExpr, g *xGuards) string {
 			return "(" + strings.Join(as, " ") + " rd)"
 		}
 	}
+	switch x.src(e.Fun) { // floats are their bit patterns
+	case "math.Float32bits", "math.Float64bits", "math.Float32frombits", "math.Float64frombits":
+		if len(e.Args) == 1 {
+			return x.expr(e.Args[0], g)
+		}
+	}
 	if tv := x.info.Types[e.Fun]; tv.IsType() { // conversion T(v)
 		if len(e.Args) != 1 {
 			x.fail(e, "conversion with %d arguments", len(e.Args))
 		}
 		from, to := x.typeOf(e.Args[0]), tv.Type
 		a := x.expr(e.Args[0], g)
+		if xIsFloat(from) == 32 && xIsFloat(to) == 64 { // the exact widening, on bit patterns
+			return "(go_f32_to_f64 " + a + ")"
+		}
+		if xIsFloat(from) != 0 && xIsFloat(from) == xIsFloat(to) {
+			return a
+		}
 		fw, fs, fok := xIntType(from)
 		tw, ts, tok := xIntType(to)
 		switch {
@@ -754,6 +886,11 @@ func (x *xl) composite(e *ast.CompositeLit, g *xGuards) string {
 
 // mapVar: the variable of an index expression m[k] on a map
 func (x *xl) mapVar(e *ast.IndexExpr) string {
+	if f := x.field(e.X); f != nil {
+		if n, ok := x.names[f]; ok {
+			return n
+		}
+	}
 	id, ok := e.X.(*ast.Ident)
 	if !ok {
 		x.fail(e, "map expression %s: only a map variable can be indexed", x.src(e.X))
@@ -786,16 +923,49 @@ func (x *xl) makeCall(e *ast.CallExpr, g *xGuards) string {
 // fresh: v is declared inside the translated statements and only ever holds values made there (zero value, make,
 // composite literal, append to itself), so no other slice shares its backing array and append acts on it as on a value
 func (x *xl) fresh(v *types.Var, at ast.Node) {
-	if !(x.lo <= v.Pos() && v.Pos() < x.hi) {
-		x.fail(at, "append to %s, which is not declared in the translated statements (it may share its array)", v.Name())
+	if x.freshDone[v] {
+		return
 	}
+	if x.freshDone == nil {
+		x.freshDone = map[*types.Var]bool{}
+	}
+	x.freshDone[v] = true
+	scope := x.body
+	if !(x.lo <= v.Pos() && v.Pos() < x.hi) {
+		listed := false
+		for _, n := range x.unit.Fresh {
+			listed = listed || n == v.Name()
+		}
+		if !listed || len(x.fnBody) == 0 || !(x.fnBody[0].Pos() <= v.Pos() && v.Pos() < x.fnBody[len(x.fnBody)-1].End()) {
+			x.fail(at, "append to %s, which is not declared in the translated statements (it may share its array)", v.Name())
+		}
+		scope = x.fnBody // a listed slice parameter: the rule is checked over the whole function
+	}
+	var assignAt ast.Node
 	ok := func(r ast.Expr) bool {
 		switch r := r.(type) {
 		case *ast.CompositeLit:
 			return true
 		case *ast.Ident:
-			_, isNil := x.info.ObjectOf(r).(*types.Nil)
-			return isNil
+			if _, isNil := x.info.ObjectOf(r).(*types.Nil); isNil {
+				return true
+			}
+			// v = w for another such variable w that is not used any more afterwards (within its scope)
+			w, isVar := x.info.ObjectOf(r).(*types.Var)
+			if !isVar || w.Parent() == nil || assignAt == nil {
+				return false
+			}
+			dead := true
+			for id, o := range x.info.Uses {
+				if o == types.Object(w) && id.Pos() > assignAt.End() && id.Pos() < w.Parent().End() {
+					dead = false
+				}
+			}
+			if !dead {
+				return false
+			}
+			x.fresh(w, at)
+			return true
 		case *ast.CallExpr:
 			if id, isId := r.Fun.(*ast.Ident); isId && len(r.Args) > 0 {
 				if a0, isId := r.Args[0].(*ast.Ident); id.Name == "append" && isId && x.info.ObjectOf(a0) == v {
@@ -806,10 +976,11 @@ func (x *xl) fresh(v *types.Var, at ast.Node) {
 		}
 		return false
 	}
-	for _, st := range x.body {
+	for _, st := range scope {
 		ast.Inspect(st, func(n ast.Node) bool {
 			switch n := n.(type) {
 			case *ast.AssignStmt:
+				assignAt = n
 				for i, l := range n.Lhs {
 					if id, isId := l.(*ast.Ident); isId && x.info.ObjectOf(id) == v && (len(n.Lhs) != len(n.Rhs) || !ok(n.Rhs[i])) {
 						x.fail(n, "%s is appended to but also assigned a value that may share its array", v.Name())
@@ -825,6 +996,40 @@ func (x *xl) fresh(v *types.Var, at ast.Node) {
 			return true
 		})
 	}
+}
+
+// sort.Slice(v, func(i, j int) bool { ... v[i] ... v[j] ... }) for a variable v: v is replaced by the sorted list.
+// The comparator is translated as a function of the two elements; None = one of its run-time checks fails.
+func (x *xl) sortSlice(s ast.Stmt, c *ast.CallExpr, rest func() string, d int) string {
+	vid, ok := c.Args[0].(*ast.Ident)
+	fl, ok2 := c.Args[1].(*ast.FuncLit)
+	if !ok || !ok2 || len(fl.Type.Params.List) == 0 {
+		x.fail(s, "sort.Slice is in the subset as sort.Slice(v, func(i, j int) bool { ... }) on a variable v")
+	}
+	var ps []*ast.Ident
+	for _, f := range fl.Type.Params.List {
+		ps = append(ps, f.Names...)
+	}
+	if len(ps) != 2 || x.inLambda {
+		x.fail(s, "the comparator of sort.Slice takes two indexes")
+	}
+	v := x.lvalue(vid)
+	x.fresh(v, s)
+	vn := x.varName(vid)
+	sl, isSlice := v.Type().Underlying().(*types.Slice)
+	if !isSlice {
+		x.fail(s, "sort.Slice of a %s", v.Type())
+	}
+	et := x.coqType(s, sl.Elem())
+	x.inLambda, x.sortVar = true, v
+	x.sortIdx = map[types.Object]string{x.info.ObjectOf(ps[0]): "a__", x.info.ObjectOf(ps[1]): "b__"}
+	saveN, saveT, saveLoop := x.nres, x.resTypes, x.inLoop
+	x.nres, x.resTypes, x.inLoop = 1, []types.Type{types.Typ[types.Bool]}, false
+	body := x.block(fl.Body.List, "Panic", d+2)
+	x.nres, x.resTypes, x.inLoop = saveN, saveT, saveLoop
+	x.inLambda, x.sortVar, x.sortIdx = false, nil, nil
+	less := "(fun (a__ b__ : " + et + ") => match (" + body + " : ctl unit bool) with Return r__ => Some r__ | _ => None end)"
+	return "match go_sort_by " + less + " " + vn + " with" + xInd(d) + "| Some " + vn + " =>" + xInd(d) + rest() + xInd(d) + "| None => Panic" + xInd(d) + "end"
 }
 
 // ---------- statements ----------
@@ -851,6 +1056,16 @@ func (x *xl) assigned(ss []ast.Stmt) []*types.Var {
 				}
 			case *ast.IncDecStmt:
 				mark(n.X)
+			case *ast.CallExpr: // sort.Slice(v, less) sets v; the comparators of sort.Slice / sort.Search assign nothing
+				switch x.src(n.Fun) {
+				case "sort.Slice":
+					if len(n.Args) == 2 {
+						mark(n.Args[0])
+					}
+					return false
+				case "sort.Search":
+					return false
+				}
 			case *ast.FuncLit:
 				x.fail(n, "function literals are outside the subset")
 			}
@@ -902,6 +1117,13 @@ func xFalls(ss []ast.Stmt) bool {
 	switch s := ss[len(ss)-1].(type) {
 	case *ast.ReturnStmt:
 		return false
+	case *ast.ExprStmt:
+		if c, ok := s.X.(*ast.CallExpr); ok {
+			if id, ok := c.Fun.(*ast.Ident); ok && id.Name == "panic" {
+				return false
+			}
+		}
+		return true
 	case *ast.BlockStmt:
 		return xFalls(s.List)
 	case *ast.IfStmt:
@@ -924,6 +1146,9 @@ func (x *xl) block(ss []ast.Stmt, k string, d int) string {
 }
 
 func (x *xl) ret(vals []string) string {
+	if x.inLambda { // the comparator of sort.Slice
+		return "Return " + vals[0]
+	}
 	for _, f := range x.recvOut { // the receiver fields the code assigns, as they are at this return
 		vals = append(vals, x.names[f])
 	}
@@ -991,6 +1216,11 @@ func (x *xl) effect(callee, prim, errv string, g xGuards, k string, d int) strin
 }
 
 func (x *xl) stmt(s ast.Stmt, rest func() string, d int) string {
+	for _, ig := range x.unit.Ignore {
+		if x.src(s) == ig {
+			return rest()
+		}
+	}
 	switch s := s.(type) {
 	case *ast.EmptyStmt:
 		return rest()
@@ -1060,6 +1290,16 @@ func (x *xl) stmt(s ast.Stmt, rest func() string, d int) string {
 		if inv := x.stCall(s.X, &g); inv != nil {
 			return x.stBind(s, inv, nil, false, g, rest, d)
 		}
+		if c, ok := s.X.(*ast.CallExpr); ok && x.src(c.Fun) == "sort.Slice" && len(c.Args) == 2 {
+			return x.sortSlice(s, c, rest, d)
+		}
+		if c, ok := s.X.(*ast.CallExpr); ok { // panic(...)
+			if id, ok := c.Fun.(*ast.Ident); ok && id.Name == "panic" {
+				if _, isB := x.info.ObjectOf(id).(*types.Builtin); isB {
+					return "Panic"
+				}
+			}
+		}
 		x.fail(s, "expression statement %s is outside the subset", x.src(s))
 	case *ast.IncDecStmt:
 		if f, ok := x.stField(s.X); ok && f.Set != "" {
@@ -1128,6 +1368,20 @@ func (x *xl) assign(s *ast.AssignStmt, rest func() string, d int) string {
 				n = x.declare(x.info.ObjectOf(id))
 			}
 			return x.effect(callee, prim, n, g, rest(), d)
+		}
+	}
+	if len(s.Rhs) == 1 && len(s.Lhs) == 1 && x.recv != nil { // v := atomic.AddUint64(&recv.f, d): f += d atomically, v is the new value
+		if c, ok := s.Rhs[0].(*ast.CallExpr); ok && len(c.Args) == 2 {
+			if f := x.atomicField(c); f != nil {
+				fn := x.names[f]
+				dv := x.expr(c.Args[1], &g)
+				lv := x.lvalue(s.Lhs[0])
+				vn := "_"
+				if lv != nil {
+					vn = x.declare(lv)
+				}
+				return xGuarded(g, "let "+fn+" := "+x.wrap(c, f.Type(), "("+fn+" + "+dv+")")+" in let "+vn+" := "+fn+" in"+xInd(d)+rest())
+			}
 		}
 	}
 	if len(s.Rhs) == 1 {
@@ -1321,7 +1575,8 @@ func (x *xl) forStmt(s *ast.ForStmt, rest func() string, d int) string {
 	iv := x.lvalue(init.Lhs[0])
 	cond, ok := s.Cond.(*ast.BinaryExpr)
 	post, ok2 := s.Post.(*ast.IncDecStmt)
-	if iv == nil || !ok || !ok2 || cond.Op != token.LSS || post.Tok != token.INC {
+	down := ok && ok2 && cond.Op == token.GEQ && post.Tok == token.DEC // for i := a; i >= n; i-- : i = a, a-1, .., n
+	if iv == nil || !ok || !ok2 || !(down || (cond.Op == token.LSS && post.Tok == token.INC)) {
 		bad()
 	}
 	if ci, ok := cond.X.(*ast.Ident); !ok || x.info.ObjectOf(ci) != iv {
@@ -1366,6 +1621,16 @@ func (x *xl) forStmt(s *ast.ForStmt, rest func() string, d int) string {
 	term, _, bind := x.state(s, vs)
 	x.loops++
 	defer func() { x.loops-- }()
-	return xGuarded(g, "bindc (go_count "+a+" "+n+" (fun ("+in+" : Z) => "+bind+xInd(d+1)+
+	comb := "go_count"
+	if down { // i-- at the least value of the type would wrap and the loop never end: the bound must be above it
+		comb = "go_count_down"
+		w, signed, _ := xIntType(iv.Type())
+		if signed {
+			g = append(g, "((-"+new(big.Int).Lsh(big.NewInt(1), uint(w-1)).String()+") <? "+n+")")
+		} else {
+			g = append(g, "(0 <? "+n+")")
+		}
+	}
+	return xGuarded(g, "bindc ("+comb+" "+a+" "+n+" (fun ("+in+" : Z) => "+bind+xInd(d+1)+
 		x.block(s.Body.List, "Next "+term, d+1)+") "+term+")"+xInd(d)+"("+bind+xInd(d)+rest()+")")
 }
